@@ -3,7 +3,7 @@
 From Coq Require Import Permutation.
 From TauModel Require Import Base Num Oracles Syntax Value Yaml Pratt ParseMap Solver Rule Keys Optimiser Known Order.
 From TauModel Require Scope Scope2 Scope3.
-From TauProofs Require C01 C01_matrix C01_d15 C01_sh0w C01_nomatch C13_opt C12_order.
+From TauProofs Require C01 C01_matrix C01_d15 C01_sh0w C01_nomatch C01_final C13_opt C12_order.
 
 Notation in_scope := Scope3.c01_scope_wide.
 
@@ -15,11 +15,9 @@ Lemma in_scope_sound : forall o ic ord sw y r (d : doc),
   exists r', optimise o ord sw r = Ok r' /\ matches o r' d = matches o r d.
 Proof.
   intros o ic ord sw y r d Hord Hs Hl Hopt Hsc.
-  unfold Scope3.c01_scope_wide in Hsc. apply Bool.orb_true_iff in Hsc. destruct Hsc as [Hsc|Hsc];
-    [apply Bool.orb_true_iff in Hsc; destruct Hsc as [Hsc|Hsc]|].
+  unfold Scope3.c01_scope_wide in Hsc. apply Bool.orb_true_iff in Hsc. destruct Hsc as [Hsc|Hsc].
   - exact (C01_matrix.scope_all_sound o ic ord sw y r d Hord Hs Hl Hopt Hsc).
-  - exact (C01_sh0w.scope_quant_all_sound_w o ic ord sw y r d Hord Hs Hl Hopt Hsc).
-  - exact (C01_nomatch.scope_quant_all_sound_nm o ic ord sw y r d Hord Hs Hl Hopt Hsc).
+  - exact (C01_final.scope_quant_all_sound_f o ic ord sw y r d Hord Hs Hl Hopt Hsc).
 Qed.
 
 Lemma crate_order_in_scope_sound : forall o ic sw y r (d : doc),
@@ -82,6 +80,6 @@ Lemma scope_noq_in_wide : forall o ord sw dt,
   Scope2.c01_scope_quant_all_noq o ord sw dt = true -> Scope3.c01_scope_wide o ord sw dt = true.
 Proof.
   intros o ord sw dt H. unfold Scope3.c01_scope_wide.
-  rewrite (C01_sh0w.scope_quant_all_noq_weaker o ord sw dt H).
+  rewrite (C01_final.scope_w_in_f o ord sw dt (C01_sh0w.scope_quant_all_noq_weaker o ord sw dt H)).
   rewrite Bool.orb_true_r. reflexivity.
 Qed.
